@@ -1,9 +1,9 @@
 CONSTANTS
-  Names <- MCNames4
-  Foreign = {}
-  Values = {"x", "y", "w"}
+  Names <- MCNames3
+  Foreign = {"z"}
+  Values = {"x", "y"}
   MaxOps = 6
-  Design = "code"
+  Design = "freshmask"
 SPECIFICATION Spec
 VIEW View
 CHECK_DEADLOCK FALSE
